@@ -122,6 +122,28 @@ class Engine(ExprMixin, CallMixin, StmtMixin):
 
     # ---- VC generation for one contracted function
     def generate(self, c, extra_ensures=None, drop_ensures=False):
+        """All VCs of contract c.  With c.cases = {param: [constants]} the function is verified once per combination
+        (the parameter is a constant in each run) and the obligations are pooled."""
+        cases = getattr(c, "cases", None)
+        if not cases:
+            return self.generate1(c, extra_ensures, drop_ensures, {})
+        import itertools
+        names = sorted(cases)
+        allobs = []
+        tot = 0
+        acc = [set(), set(), set(), set()]
+        for combo in itertools.product(*[cases[n] for n in names]):
+            pin = dict(zip(names, combo))
+            n, fdef, text = self.generate1(c, extra_ensures, drop_ensures, pin)
+            tot += n
+            allobs += self.obligations
+            for a, b in zip(acc, (self.assumptions, self.trusted_axioms, self.callees, self.used_lemmas)):
+                a |= b
+        self.obligations = allobs
+        self.assumptions, self.trusted_axioms, self.callees, self.used_lemmas = acc
+        return tot, fdef, text
+
+    def generate1(self, c, extra_ensures, drop_ensures, pin):
         self.reset()
         fdef, text, cls = front.find_def(c.qual)
         self.cur_name = c.name
@@ -141,6 +163,8 @@ class Engine(ExprMixin, CallMixin, StmtMixin):
             if tstr is None:
                 continue
             v = fresh(T.parse_type(tstr), p)
+            if p in pin:
+                v = VInt(pin[p]) if isinstance(pin[p], int) else VStr(pin[p])
             st.vars[p] = v
             inputs[p] = v
             for w in wf(v):
